@@ -72,23 +72,23 @@ func b2s(b bool) string {
 // World runs a history on the real node, on the abstract chain (the property's oracle) and on the
 // Lean model.
 type World struct {
-	Src     *Source
-	Node    *Node
-	Chain   []Plan        // abstract canonical chain: events per block
-	Bundles []*lib.Bundle // the blocks of the canonical chain as stored (for tag checks)
-	Drv     *lib.Driver
-	Res     *lib.Result
-	Name    string
-	Hist    []Op
-	Floor   int // oldest retained block (0 = nothing pruned)
-	Faulted bool // a lazy initialisation failed (injected) and no write / restart has re-armed it since
+	Src      *Source
+	Node     *Node
+	Chain    []Plan        // abstract canonical chain: events per block
+	Bundles  []*lib.Bundle // the blocks of the canonical chain as stored (for tag checks)
+	Drv      *lib.Driver
+	Res      *lib.Result
+	Name     string
+	Hist     []Op
+	Floor    int  // oldest retained block (0 = nothing pruned)
+	Faulted  bool // a lazy initialisation failed (injected) and no write / restart has re-armed it since
 	Tampered bool // the database was corrupted on purpose: errors are expected, correspondence only
-	V       Variant
-	wires   map[int]*wireServer
+	V        Variant
+	wires    map[int]*wireServer
 	preFirst int // number of the first pre-confirmed block the running query may be served from; -1: none
-	drvDead bool
-	pool    *DrvPool
-	quiet   bool // no correspondence, oracle only
+	drvDead  bool
+	pool     *DrvPool
+	quiet    bool // no correspondence, oracle only
 }
 
 func (w *World) ask(line string) string {
